@@ -93,7 +93,7 @@ Definition nul_tens : list tstate :=
   [{| t_path := [0%N]; t_off := 0; t_len := 2; t_valid := true; t_map := None |}].
 Definition nul_sc : scn :=
   {| sc_req := [1%N]; sc_tmpd := [7%N]; sc_tensors := [(0, TExt 0)]; sc_chunk := 4; sc_cb := None; sc_cbbase := 0;
-     sc_aliases := [] |}.
+     sc_aliases := []; sc_held := [] |}.
 Theorem C08_samefile_valueerror_before_fix :
   snd (run no_ctl nul_fs nul_tens [] nul_sc) = SRaise ValueError
   /\ s_fs (fst (run no_ctl nul_fs nul_tens [] nul_sc)) = nul_fs.
@@ -155,11 +155,11 @@ Definition ex_tens : list tstate :=
   [{| t_path := [1%N]; t_off := 1; t_len := 2; t_valid := true; t_map := None |}].
 Definition ex_sc : scn :=
   {| sc_req := [1%N]; sc_tmpd := [7%N]; sc_tensors := [(0, TExt 0); (2, TMem [5%N; 6%N; 7%N])];
-     sc_chunk := 1; sc_cb := Some None; sc_cbbase := 0; sc_aliases := [] |}.
+     sc_chunk := 1; sc_cb := Some None; sc_cbbase := 0; sc_aliases := []; sc_held := [] |}.
 (* Ctrl-C (KeyboardInterrupt) delivered while the progress callback of the second tensor runs *)
 Definition ex_sc_kbd : scn :=
   {| sc_req := [1%N]; sc_tmpd := [7%N]; sc_tensors := [(0, TExt 0); (2, TMem [5%N; 6%N; 7%N])];
-     sc_chunk := 1; sc_cb := Some (Some (1, OtherError)); sc_cbbase := 0; sc_aliases := [] |}.
+     sc_chunk := 1; sc_cb := Some (Some (1, OtherError)); sc_cbbase := 0; sc_aliases := []; sc_held := [] |}.
 
 Example ex_wf : single_wf ex_fs ex_sc.
 Proof.
@@ -180,6 +180,18 @@ Example ex_fault_clean :
   snd (run_with_fault 7 ex_fs ex_tens [] ex_sc) = SRaise OSError
   /\ s_fs (fst (run_with_fault 7 ex_fs ex_tens [] ex_sc)) = ex_fs.
 Proof. vm_compute. repeat split; reflexivity. Qed.
+(* the caller holds a live numpy view of the destination-backed tensor: release() raises BufferError BEFORE
+   the rename, the save fails and the directory is exactly as before, the tensor still valid *)
+Definition held_tens : list tstate :=
+  [{| t_path := [1%N]; t_off := 1; t_len := 2; t_valid := true; t_map := Some [1%N; 2%N; 3%N; 4%N] |}].
+Definition held_sc : scn :=
+  {| sc_req := [1%N]; sc_tmpd := [7%N]; sc_tensors := [(0, TExt 0); (2, TMem [5%N; 6%N; 7%N])];
+     sc_chunk := 8; sc_cb := None; sc_cbbase := 0; sc_aliases := []; sc_held := [0] |}.
+Example ex_held_view_clean :
+  snd (run no_ctl ex_fs held_tens [] held_sc) = SRaise OtherError
+  /\ s_fs (fst (run no_ctl ex_fs held_tens [] held_sc)) = ex_fs
+  /\ map t_valid (s_tens (fst (run no_ctl ex_fs held_tens [] held_sc))) = [true].
+Proof. vm_compute. repeat split; reflexivity. Qed.
 Example ex_src_wf : src_wf ex_fs ex_tens ex_sc.
 Proof. intros [|[|h]] x H; simpl in H; inversion H; subst; split; reflexivity. Qed.
 Example ex_keyboard_interrupt_clean :
@@ -194,7 +206,7 @@ Definition hl_tens : list tstate :=
    {| t_path := [1%N]; t_off := 0; t_len := 2; t_valid := true; t_map := None |}].
 Definition hl_sc : scn :=
   {| sc_req := [1%N]; sc_tmpd := [7%N]; sc_tensors := [(0, TExt 0); (2, TExt 1)]; sc_chunk := 8; sc_cb := None;
-     sc_cbbase := 0; sc_aliases := [[2%N]] |}.
+     sc_cbbase := 0; sc_aliases := [[2%N]]; sc_held := [] |}.
 Example ex_hardlink_alias_stays_valid :
   overwritten hl_fs hl_tens hl_sc = [0; 1] /\ invalidated hl_fs hl_tens hl_sc = [1]
   /\ map t_valid (s_tens (fst (run no_ctl hl_fs hl_tens [] hl_sc))) = [true; false]
@@ -204,5 +216,5 @@ Proof. vm_compute. repeat split; reflexivity. Qed.
 Example ex_image : image ex_fs ex_tens (sc_tensors ex_sc) = [2%N; 3%N; 5%N; 6%N; 7%N].
 Proof. vm_compute. reflexivity. Qed.
 Example ex_shard_wf : Forall (shard_wf ex_fs) [ {| sc_req := [3%N]; sc_tmpd := [7%N]; sc_tensors := [(0, TMem [5%N])];
-     sc_chunk := 1; sc_cb := None; sc_cbbase := 0; sc_aliases := [] |} ].
+     sc_chunk := 1; sc_cb := None; sc_cbbase := 0; sc_aliases := []; sc_held := [] |} ].
 Proof. constructor; [|constructor]. unfold shard_wf. simpl. repeat split; discriminate. Qed.
